@@ -1069,7 +1069,13 @@ class Parser:
                     "E001",
                 )
 
-            self.skip_whitespace()
+            # Issue #182/#217: comments between the block header and its first child (same line
+            # or column 0) are kept, like the pre-indent comments of a section marker
+            pre_indent_comments: list[str] = []
+            while self.current().type in (TokenType.NEWLINE, TokenType.COMMENT):
+                if self.current().type == TokenType.COMMENT:
+                    pre_indent_comments.append(self.current().value)
+                self.advance()
 
             # Parse block children
             children: list[ASTNode] = []
@@ -1089,6 +1095,7 @@ class Parser:
                         value=lzv,
                         line=self.current().line,
                         column=self.current().column,
+                        leading_comments=pre_indent_comments,
                     )
                 )
 
@@ -1104,7 +1111,7 @@ class Parser:
                 current_line_indent = child_indent
 
                 # Issue #182: Track pending comments for next child
-                pending_comments: list[str] = []
+                pending_comments: list[str] = pre_indent_comments
 
                 while True:
                     # End conditions
@@ -1191,6 +1198,11 @@ class Parser:
                 if pending_comments:
                     for comment_text in pending_comments:
                         children.append(Comment(text=comment_text))
+
+            else:
+                # No children: comments that followed the header stay with the (empty) block
+                for comment_text in pre_indent_comments:
+                    children.append(Comment(text=comment_text))
 
             return Block(
                 key=key,
